@@ -553,6 +553,35 @@ def async (s : S) : S :=
   | .import_ h r ib => asyncImport { s with pend := .none } h r ib
   | .commit h r => asyncCommit { s with pend := .none } h r
 
+/-! ### block sync: ReceiveBlockResult → ReceiveBlock → processBlock
+
+    The engine is handed a block `b` of height `h` together with a commit vote list (precommits of
+    round `r` by `signers`) through the fast-sync callback instead of gossip.  This entry point is part
+    of the executable model (correspondence with the real engine is exact) but NOT an `Event`: the
+    theorems about `run` do not cover it. -/
+
+/-- the vote loop of processBlock: an unknown signer rejects the block (votes added so far stay) -/
+def syncAddVotes (s : S) : List VoteRec → S × Bool
+  | [] => (s, true)
+  | v :: vs => if v.signer ≥ s.n then (s, false) else syncAddVotes (s.hvsAdd v).2 vs
+
+def syncBlock (s : S) (h r : Nat) (b : Blk) (signers : List Nat) : S :=
+  if s.height < h then s                      -- prefetchItems (not modelled; never generated)
+  else if s.height > h || (s.step == stCommit && s.cur.isComplete) then s      -- Consume
+  else
+    let (s, ok) := syncAddVotes s (signers.map (fun sg => ⟨sg, h, .precommit, r, some b⟩))
+    if !ok then s                              -- Reject
+    else match (votesFor s.hvs r .precommit).decision s.n with
+      | some (some b') =>
+        if b' != b then s                      -- Reject: commit votes are for another part set
+        else
+          -- SetByPartSetAndBlock: the validated candidate is kept only if the part-set id is unchanged
+          let keep := s.cur.id == some b && s.cur.hasValidated
+          let s := { s with cur := .full b keep }
+          if s.step < stCommit then enterCommit fuel0 s b r
+          else commitAndEnterNewHeight fuel0 s
+      | _ => s                                 -- Reject: no +2/3 precommits for a block
+
 /-! ### restart: applyRoundWAL / applyLockWAL / applyCommitWAL / Start -/
 
 def mstepOf (t : VType) : Nat := match t with | .prevote => stPrevote | .precommit => stPrecommit
